@@ -1289,7 +1289,7 @@ def _char_eval(t, is_param, ch):
     if is_call(t0):
         nm = mir.norm_path(t0[1]).rsplit("::", 1)[-1]
         args = call_args(t0)
-        if nm in _CHAR_FNS and _CHAR_FNS[nm] is not None and len(args) == 1 and is_param(strip_refs(args[0])) and "char" in t0[1]:
+        if nm in _CHAR_FNS and _CHAR_FNS[nm] is not None and len(args) == 1 and is_param(strip_refs(args[0])) and ("char" in t0[1] or "u8" in t0[1]):
             return _CHAR_FNS[nm](ch)
         if nm == "contains" and len(args) == 2 and is_param(strip_refs(args[1])):
             rg = agg_variant(strip_refs(args[0]))
@@ -1337,4 +1337,87 @@ def char_table(paths, is_param=lambda t: t == ("param", 1), domain=None):
                 res.add(bool(r))
         out[ch] = (None if unknown or len(res) != 1 else next(iter(res)))
     return out
+
+
+BYTE_DOMAIN = [chr(i) for i in range(256)]
+ASCII_BLANKS = {" ", "\t", "\n", "\x0b", "\x0c", "\r"}
+
+
+def blank_predicates(ctx, key):
+    """Byte predicates in `key` (and its closures) that accept the space character: [(owner key, bb, subject term, accepted set, evaluable)].
+    A predicate is a path condition / closure result built from u8 class tests and comparisons of ONE byte-valued term with constants; it is
+    tabulated over all 256 byte values (no code is run).  A predicate that does not accept ' ' (a newline test, a '#' test ...) is not a blank test."""
+    out = []
+    keys = [key] + [k for k in ctx.fx.fns if k.startswith(key + "::{closure#")]
+    for k in keys:
+        ps = ctx.paths(k)
+        if not ps:
+            continue
+        f = ctx.fx.fns.get(k)
+        if f is not None and f["kind"] == "Closure" and f["arg_count"] == 2 and f["locals"][2]["ty"].lstrip("&").strip() == "u8" and f["ret_ty"] == "bool":
+            # a closure |b| -> bool over one byte: tabulate it whole (covers `matches!`, which switches on the byte itself)
+            tbl = char_table(ps, is_param=lambda t: strip_refs(t) == ("param", 2), domain=BYTE_DOMAIN)
+            if all(v is not None for v in tbl.values()):
+                acc = {c for c, v in tbl.items() if v}
+                rej = {c for c, v in tbl.items() if not v}
+                side = acc if " " in acc else rej
+                if " " in side and len(side) < 128:
+                    out.append((k, 0, ("param", 2), side, True))
+                continue
+        cands = {}
+        for p in ps:
+            terms = [(c.term, c.bb) for c in p.conds()]
+            if p.end[0] == "return" and isinstance(p.end[1], tuple):
+                terms.append((p.end[1], p.blocks[-1] if p.blocks else 0))
+            for t, bb in terms:
+                subs = set()
+                for s_ in subterms(t):
+                    if is_call(s_) and "u8" in s_[1] and mir.norm_path(s_[1]).rsplit("::", 1)[-1] in _CHAR_FNS and len(call_args(s_)) == 1:
+                        subs.add(strip_refs(call_args(s_)[0]))
+                    if s_[0] == "binop" and s_[1] in ("Eq", "Ne", "Lt", "Le", "Gt", "Ge"):
+                        for x, y in ((s_[2], s_[3]), (s_[3], s_[2])):
+                            if isinstance(y, tuple) and y and y[0] == "const" and y[1] == "u8" and not (isinstance(x, tuple) and x and x[0] == "const"):
+                                subs.add(strip_refs(x))
+                for x in subs:
+                    cands.setdefault((t, x), bb)
+        for (t, x), bb in cands.items():
+            tbl = {}
+            ok = True
+            for ch in BYTE_DOMAIN:
+                v = _char_eval(t, lambda s_, x=x: s_ == x, ch)
+                if v is None or not isinstance(v, (bool, int)):
+                    ok = False
+                    break
+                tbl[ch] = bool(v)
+            if not ok:
+                continue
+            acc = {c for c, v in tbl.items() if v}
+            rej = {c for c, v in tbl.items() if not v}
+            # the condition may be the predicate or its negation: the blank test is whichever side holds for ' '
+            side = acc if " " in acc else rej
+            if " " in side and len(side) < 128:
+                out.append((k, bb, x, side, True))
+    return out
+
+
+def check_blank_sets(ctx, rule, key, floor=1, ignore=None):
+    """every blank test made on the bytes of the input accepts at least space and tab, and nothing but ASCII white space (so a byte >= 0x80,
+    or a letter, never separates fields / is skipped, and a tab always does)"""
+    body = ctx.body(key)
+    preds = blank_predicates(ctx, key)
+    seen = set()
+    n = 0
+    for (k, bb, x, acc, _) in preds:
+        sig = (k, bb, tuple(sorted(acc)))
+        if sig in seen or (ignore is not None and ignore(acc)):
+            continue
+        seen.add(sig)
+        n += 1
+        missing = sorted(repr(c) for c in (" ", "\t") if c not in acc)
+        extra = sorted(repr(c) for c in acc - ASCII_BLANKS)
+        b = ctx.body(k)
+        ctx.check(not missing and not extra, rule, k, "blank-test@%d" % n, "accepts %s" % sorted(repr(c) for c in acc),
+                  "a blank test accepts %s%s: fields are separated (and leading blanks skipped) by spaces AND tabs, and by nothing outside ASCII white space"
+                  % (sorted(repr(c) for c in acc)[:8], (", not %s" % missing) if missing else ""), b.span_of(bb) if b else "", nontrivial=(n <= 2))
+    ctx.floor(rule, key, "blank tests tabulated", n, floor)
 
